@@ -8,7 +8,7 @@
 #include "mxh.h"
 using namespace vf; using namespace mxh;
 
-struct Scn { bool vclient; int ver; Suite su; int kind; /*0 full 1 cauth 2 resumed*/ std::vector<size_t> vsend, psend; long corrupt_at; /* absolute offset in P->V stream, -1 none */ uint8_t corrupt_mask; bool close; uint32_t eseed; bool bigchain; /* RSA identities with a two-certificate chain: Certificate records larger than the default 1500-byte input buffer */ int ccs_before; /* TLS 1.3: middlebox-compatibility CCS record inserted before this record of the P->V stream, -1 none */ };
+struct Scn { bool vclient; int ver; Suite su; int kind; /*0 full 1 cauth 2 resumed*/ std::vector<size_t> vsend, psend; long corrupt_at; /* absolute offset in P->V stream, -1 none */ uint8_t corrupt_mask; bool close; uint32_t eseed; bool bigchain; /* RSA identities with a two-certificate chain: Certificate records larger than the default 1500-byte input buffer */ int ccs_before; /* TLS 1.3: middlebox-compatibility CCS record inserted before this record of the P->V stream, -1 none */ bool eager; /* the peer application sends its first message the moment its handshake completes, so the record travels coalesced with the peer's final handshake flight */ bool followup; /* after the scenario a second connection reuses the victim's session id structure; whether it resumes is part of the trace */ };
 struct Part { int mode; /*0 whole 1 byte 2 small-random 3 record-straddle 4 big-random*/ size_t out_piece; bool defer; std::vector<uint16_t> sizes; bool use_readbuf_of_size; };
 struct Trace { std::vector<Event> ev; Bytes delivered; Bytes out; bool complete; std::string str() const { std::string s; for (auto &e : ev) s += fmt("(%d,%d,%d)", e.kind, e.a, e.b); return s; } };
 
@@ -34,7 +34,7 @@ static Trace run(const Scn &sc, const Part &pt, Ctx &c, bool is_ref, sslSessionI
     if (p.s.open(scf) < 0 || p.c.open(cc) < 0) throw Discard{};
     Endpoint &V = sc.vclient ? p.c : p.s, &P = sc.vclient ? p.s : p.c;
     V.out_piece = pt.out_piece; V.defer_pump = pt.defer;
-    size_t p2v_off = 0; size_t part_i = 0; int p2v_rec = 0;
+    size_t p2v_off = 0; size_t part_i = 0; int p2v_rec = 0; bool eager_done = false;
     Bytes vout_all;
     auto feed_v = [&](Bytes d) {
         // a compatibility-mode change_cipher_spec record (RFC 8446 appendix D.4) inserted at a record boundary, identically in both runs
@@ -66,6 +66,7 @@ static Trace run(const Scn &sc, const Part &pt, Ctx &c, bool is_ref, sslSessionI
         bool mv = false;
         V.pump_out();
         if (!V.wire_out.empty()) { Bytes x = V.take_wire(); vout_all.insert(vout_all.end(), x.begin(), x.end()); if (P.ssl && !P.failed) P.feed(x); mv = true; }
+        if (sc.eager && !eager_done && P.alive() && P.hs_complete()) { eager_done = true; Bytes m = amsg(40, 23); P.send(m.data(), m.size(), 0); }
         P.pump_out();
         if (!P.wire_out.empty()) { Bytes x = P.take_wire(); if (V.ssl) feed_v(x); mv = true; }
         return mv;
@@ -79,15 +80,27 @@ static Trace run(const Scn &sc, const Part &pt, Ctx &c, bool is_ref, sslSessionI
     if (sc.close) { if (P.alive() && P.hs_complete()) { P.send_close(); settle(); } if (V.ssl && V.hs_complete()) { V.send_close(); settle(); } }
     // normalised trace: semantic events up to and including the first error
     for (auto &e : V.events) {
-        if (e.kind == EV_HS_COMPLETE) tr.ev.push_back({ e.kind, 0, 0 });
+        // MATRIXSSL_HANDSHAKE_COMPLETE is not a trace token: when the peer's Finished and its first application record are decoded in
+        // one call the API documents that only MATRIXSSL_APP_DATA is returned; completion is compared through matrixSslHandshakeIsComplete
+        if (e.kind == EV_HS_COMPLETE) continue;
         else if (e.kind == EV_ALERT_RECV) { tr.ev.push_back(e); if (e.a == SSL_ALERT_LEVEL_FATAL || e.b == SSL_ALERT_CLOSE_NOTIFY) break; }  // session is dead from here: later calls are not comparable (their number depends on the partition)
         // own failure: reported either as REQUEST_CLOSE (when the alert is drained) or as a negative code on the next receive
         // call (when draining is deferred) - which comes first depends on the drain schedule, so both map to one DEAD token;
         // whether an alert was emitted is compared through the output bytes.
         else if (e.kind == EV_REQ_CLOSE || e.kind == EV_ERROR) { tr.ev.push_back({ 99, 0, 0 }); break; }
     }
+    if (getenv("C18_DEBUG")) { fprintf(stderr, "  raw events (%s):", is_ref ? "whole" : "chunked"); for (auto &e : V.events) fprintf(stderr, " (%d,%d,%d)", e.kind, e.a, e.b); fprintf(stderr, " failed=%d req_close=%d alive=%d\n", V.failed, V.req_close, V.alive()); }
     tr.delivered = V.delivered; tr.out = vout_all;
     (void) is_ref; (void) c;
+    // follow-up connection on the same session id structure (delivered whole in both runs): what the first connection left in it
+    // - and therefore whether this one resumes - must not depend on how the first connection's input was partitioned
+    if (sc.followup && sid && !is_dtls(sc.ver)) {
+        p.c.close(); p.s.close();
+        Pair q; Config c2 = cc, s2 = scf; c2.sid = sid; c2.entropy_stream = 3; s2.entropy_stream = 4;
+        int resumed = -1;
+        if (q.s.open(s2) >= 0 && q.c.open(c2) >= 0 && q.run(60)) { q.c.sel(); resumed = matrixSslIsResumedSession(q.c.ssl) == PS_TRUE ? 1 : 0; }
+        tr.ev.push_back({ 98, 0, resumed });
+    }
     return tr;
 }
 
@@ -103,6 +116,7 @@ static void prop(Tape &t, Ctx &c) {
     sc.corrupt_at = t.chance(1, 3) ? (long) t.below(6000) : -1; sc.corrupt_mask = (uint8_t) (1 << t.below(8));
     sc.bigchain = sc.su.auth == AUTH_RSA && t.chance(1, 3);
     sc.ccs_before = (sc.ver == TLS13 && t.chance(1, 2)) ? (int) t.below(7) : -1;
+    sc.eager = t.chance(1, 3); sc.followup = t.chance(1, 3);
     Part pt; pt.mode = 1 + (int) t.below(4);
     pt.out_piece = t.chance(1, 2) ? (size_t) -1 : (size_t) t.pick(std::vector<int>{ 1, 2, 7, 100, 1000, 5000 });
     pt.defer = t.chance(1, 3); pt.use_readbuf_of_size = false;
@@ -113,7 +127,7 @@ static void prop(Tape &t, Ctx &c) {
         pt.sizes.push_back(v);
     }
     std::string vs, ps, zs; for (auto n : sc.vsend) vs += std::to_string(n) + ","; for (auto n : sc.psend) ps += std::to_string(n) + ","; for (auto n : pt.sizes) zs += std::to_string(n) + ",";
-    std::string desc = fmt("victim=%s %s %s kind=%d bigchain=%d ccs-before-rec=%d vsend=[%s] psend=[%s] close=%d corrupt@%ld^%02x | mode=%d sizes=[%s] out_piece=%zd defer=%d", sc.vclient ? "client" : "server", ver_name(sc.ver), sc.su.name, sc.kind, sc.bigchain, sc.ccs_before,
+    std::string desc = fmt("victim=%s %s %s kind=%d bigchain=%d ccs-before-rec=%d eager=%d followup=%d vsend=[%s] psend=[%s] close=%d corrupt@%ld^%02x | mode=%d sizes=[%s] out_piece=%zd defer=%d", sc.vclient ? "client" : "server", ver_name(sc.ver), sc.su.name, sc.kind, sc.bigchain, sc.ccs_before, sc.eager, sc.followup,
                            vs.c_str(), ps.c_str(), sc.close, sc.corrupt_at, sc.corrupt_mask, pt.mode, zs.c_str(), (ssize_t) pt.out_piece, pt.defer);
     c.sample(desc); if (c.verbose) fprintf(stderr, "case: %s\n", desc.c_str());
 
@@ -121,16 +135,19 @@ static void prop(Tape &t, Ctx &c) {
     auto prime = [&](sslSessionId_t **sid) {
         *sid = nullptr;
         matrixSslClose(); matrixSslOpen();   // empty global server session cache => identical starting state for both runs
-        if (sc.kind != 2) return;
+        if (sc.kind != 2 && !sc.followup) return;
         if (matrixSslNewSessionId(sid, NULL) < 0) throw Discard{};
-        Scn s0 = sc; s0.kind = 0; s0.vsend.clear(); s0.psend.clear(); s0.close = false; s0.corrupt_at = -1; Part w; w.mode = 0; w.out_piece = (size_t) -1; w.defer = false;
+        if (sc.kind != 2) return;
+        Scn s0 = sc; s0.kind = 0; s0.eager = false; s0.followup = false; s0.vsend.clear(); s0.psend.clear(); s0.close = false; s0.corrupt_at = -1; Part w; w.mode = 0; w.out_piece = (size_t) -1; w.defer = false;
         run(s0, w, c, true, *sid);
     };
     Part whole; whole.mode = 0; whole.out_piece = (size_t) -1; whole.defer = false;
     sslSessionId_t *sid = nullptr;
     prime(&sid); Trace a = run(sc, whole, c, true, sid); if (sid) matrixSslDeleteSessionId(sid);
     prime(&sid); Trace b = run(sc, pt, c, false, sid); if (sid) matrixSslDeleteSessionId(sid);
+    if (getenv("C18_DEBUG")) fprintf(stderr, "whole: complete=%d ev=%s delivered=%zu out=%zu\nchunked: complete=%d ev=%s delivered=%zu out=%zu\n", a.complete, a.str().c_str(), a.delivered.size(), a.out.size(), b.complete, b.str().c_str(), b.delivered.size(), b.out.size());
     c.count(a.complete ? "ref-handshake-complete" : "ref-handshake-failed");
+    if (sc.eager) c.count("peer-data-coalesced-with-final-flight"); if (sc.followup) c.count("follow-up-connection-on-same-sid"); if (sc.eager && sc.followup && sc.vclient) c.count("eager+followup+client-victim");
     if (sc.bigchain) c.count("two-certificate-chain"); if (sc.ccs_before >= 0) c.count("compat-ccs-injected"); if (sc.bigchain && sc.ccs_before >= 0) c.count("compat-ccs+large-certificate-record");
     c.count(fmt("mode:%d", pt.mode)); if (pt.defer) c.count("deferred-drain"); if (pt.out_piece != (size_t) -1) c.count("partial-sends");
     VF_CHECK(a.complete == b.complete, "chunking-changes-handshake-result", "handshake result differs: whole=%d chunked=%d; %s", a.complete, b.complete, desc.c_str());
